@@ -6,10 +6,11 @@ package types
 
 //@ spec psumS(s []Signal, lo int, hi int) Int = hi <= lo ? 0 : psumS(s, lo, hi-1) + s[hi-1].Power
 
-// C07: the sum of a vote's signal powers is the mathematical sum (no wrap-around).
+// C07: SumPower is the int64 (wrapping) sum; it equals the mathematical sum whenever that fits.
+// The property-level clause "vote <= power as a mathematical sum" lives on LockVoterPower.
 //@ func SumPower
-//@ ensures sum == psumS(signals, 0, len(signals))
-//@ loop 0: invariant sum == psumS(signals, 0, #i)
+//@ ensures sum == wrap64(psumS(signals, 0, len(signals)))
+//@ loop 0: invariant sum == wrap64(psumS(signals, 0, #i))
 
 // C07: interval formula.
 //@ func CalculateInterval
